@@ -38,6 +38,12 @@ type connPlan struct {
 	closeErr     bool           // Close returns an error
 }
 
+// faultFree: the peer of this attempt answers everything promptly and never drops
+func (p connPlan) faultFree() bool {
+	return !p.refuse && p.failSend == 0 && p.holdSend == 0 && p.failRecv == 0 && (p.connack == "" || p.connack == "ok") &&
+		!p.dropAtOnce && p.dropAfter == 0 && p.dropAfterAck == 0 && len(p.noAck) == 0 && len(p.reject) == 0 && len(p.gateAck) == 0
+}
+
 type item struct {
 	pkt packet.Generic
 	eof bool
@@ -152,6 +158,7 @@ func (d *recDialer) Dial(string) (transport.Conn, error) {
 	s.discSent = false
 	s.mu.Unlock()
 	var plan connPlan
+	defer func() { s.mu.Lock(); s.curPlan = plan; s.mu.Unlock() }()
 	if k-1 < len(s.plans) {
 		plan = s.plans[k-1]
 	} else if s.planGen != nil {
